@@ -317,6 +317,9 @@ fn input_for_unpadded(prop: &str, tier: Tier, seed: u64, idx: u64, sub: u64) -> 
                 crate::model::assign_random_shapes(&mut m, &mut rng, 0.5);
                 if let Ok(mut items) = rkiki::reference_ast(&m.render()) {
                     let tag = gtext::inject_many(&mut items, &mut rng);
+                    if rng.chance(0.3) {
+                        gtext::decorate_items(&mut items, &mut rng);
+                    }
                     return (format!("multi+{tag}"), gtext::render_items(&items));
                 }
             }
@@ -340,6 +343,11 @@ fn input_for_unpadded(prop: &str, tier: Tier, seed: u64, idx: u64, sub: u64) -> 
             let mut tags = vec![];
             for _ in 0..k {
                 tags.push(gtext::inject(&mut items, &mut rng));
+            }
+            if rng.chance(0.3) {
+                // attributes (lint allows, derives ...) on the declarations: validation must not care
+                gtext::decorate_items(&mut items, &mut rng);
+                tags.push("attributes");
             }
             let text = gtext::render_items(&items);
             // random layout so that positions are not trivial
